@@ -24,6 +24,10 @@ Contract file directives (one per line, everything up to the next `//@` line is 
   //@ in <qual> after "<anchor>"          payload inserted immediately after the anchor text
   //@ in <qual> before "<anchor>"         payload inserted immediately before the anchor text
   //@ in <qual> body-start                payload inserted right after the body's `{`
+  //@ in <qual> before-tail               payload inserted before the last statement / tail expression of the body
+  //@ block <header> start|end            payload inserted right after the `{` / before the `}` of the
+                                          impl or trait block with that header (e.g. `trait SchemeManager`,
+                                          `SchemeManager for LocalSchemeManager`)
   //@ replace <count> "<old>" => "<new>" [in <qual>]     exact-match rewrite (normalisation)
   //@ optional                            (prefix line) the next directive may miss its anchor silently
 
@@ -83,6 +87,7 @@ class FileJob:
         self.rel = rel
         self.src = src
         self.toks, self.pair, self.fns = rustlex.find_fns(src)
+        self.blocks = list(rustlex.find_fns.last_blocks)
         self.edits = []  # (pos, end, text, origin, order)
         self.wrap = None
         self.order = 0
@@ -118,6 +123,8 @@ class FileJob:
     def stmt_start(self, pos):
         i = self.tok_at(pos)
         j = i - 1
+        if self.toks[i].kind == 'punct' and self.toks[i].text in (')', ']', '}'):
+            j = self.pair[i] - 1
         while j >= 0:
             t = self.toks[j]
             if t.kind == 'punct':
@@ -270,6 +277,34 @@ def annotate(repo, contracts, out):
                     ins = p + len(anchor)
                 else:
                     ins = p
+                cur.add(ins, ins, text, orig)
+                continue
+            m = re.match(r'block\s+(.+?)\s+(start|end)$', head)
+            if m:
+                bl = [b for b in cur.blocks if b[0] == m.group(1).strip()]
+                if len(bl) != 1:
+                    raise Lost('%s: block `%s` found %d times' % (cur.rel, m.group(1), len(bl)))
+                text, orig = payload_text(d, clauses)
+                if m.group(2) == 'start':
+                    ins = cur.toks[bl[0][1]].end
+                    cur.add(ins, ins, '\n' + text, orig)
+                else:
+                    ins = cur.toks[bl[0][2]].pos
+                    cur.add(ins, ins, text, orig)
+                continue
+            m = re.match(r'in\s+(.+?)\s+before-tail$', head)
+            if m:
+                f = cur.fn(m.group(1).strip())
+                if f.body_open < 0:
+                    raise Lost('%s: `%s` has no body' % (cur.rel, f.qual))
+                # start of the last statement / tail expression of the body
+                j = f.body_close - 1
+                if cur.toks[j].text == ';':
+                    j -= 1
+                ins = cur.stmt_start(cur.toks[j].pos) if j > f.body_open else cur.toks[f.body_open].end
+                # stmt_start looks left from the token *containing* pos; make sure we stay inside the body
+                ins = max(ins, cur.toks[f.body_open].end)
+                text, orig = payload_text(d, clauses)
                 cur.add(ins, ins, text, orig)
                 continue
             m = re.match(r'in\s+(.+?)\s+body-start$', head)
